@@ -203,14 +203,36 @@ pub fn decode(data: &[u8]) -> Result<RMsg, RefErr> {
                 return Err(RefErr::ItemCount);
             }
             // The record list: judged leniently on its own length prefix (reported separately)
-            let (list, off, len) = rlp::header(p).map_err(|e| match e {
-                RlpErr::Short => RefErr::NodesInnerLength,
-                o => conv(o),
-            })?;
+            let (list, off, len) = match rlp::header(p) {
+                Ok(h) => h,
+                // list header announcing more than is there: judged like an inconsistent length below
+                Err(RlpErr::Short) => {
+                    let b = p[0];
+                    if b < 0xc0 {
+                        return Err(RefErr::ItemKind);
+                    }
+                    let off = if b >= 0xf8 { 1 + (b - 0xf7) as usize } else { 1 };
+                    if off > p.len() {
+                        return Err(RefErr::Truncated);
+                    }
+                    (true, off, p.len() + 1)
+                }
+                Err(o) => return Err(conv(o)),
+            };
             if !list {
                 return Err(RefErr::ItemKind);
             }
             if off + len != p.len() {
+                // The record list's own length disagrees with what follows. Tolerated (a counted
+                // leniency) only if everything after the list header is a sequence of valid signed
+                // records; anything else in there is junk that the statement says must be rejected.
+                let mut rest = &p[off..];
+                while !rest.is_empty() {
+                    match rlp::split(rest) {
+                        Ok((true, _p, whole, r)) if record_valid(whole) => rest = r,
+                        _ => return Err(RefErr::RecordInvalid),
+                    }
+                }
                 return Err(RefErr::NodesInnerLength);
             }
             let mut inner = &p[off..];
